@@ -380,6 +380,11 @@ func (r *Runner) Step(op *Op) []Mismatch {
 		m.loadFail += uint64(m.opLoadFail)
 		r.checkStats(pre)
 	}
+	if pre.expHidden {
+		for i := range m.mm {
+			m.mm[i].OnExpired = true
+		}
+	}
 	// The log is consumed; keep memory bounded.
 	e.Log = e.Log[:0]
 	if len(m.mm) == 0 {
